@@ -5,6 +5,7 @@ from rules.common import *  # noqa: F401,F403
 from rules import dispatch, storefacts
 from rules.storefacts import field_of, REQ_CAS
 from rules.c02 import is_counter_token, memc_opaque
+from rules import roles
 from storemodel import MULTI_KEY_MUTATORS
 
 LEVEL_TEXT = (
@@ -204,7 +205,7 @@ def r5(ctx):
     nb = f.one(MS + "::new")
     init = None
     for p in Interp(f).run(nb, [P("timer")]):
-        c = field_of(p.ret, "cas_id")
+        c = field_of(p.ret, roles.get(ctx).ms_cas)
         for a in atoms(c):
             if isinstance(a, tuple) and a[0] == "call" and a[1].endswith("::new") and "tomic" in a[1]:
                 init = a[3][0] if a[3] else None
@@ -214,7 +215,7 @@ def r5(ctx):
             cas = field_of(w["value"], "header", "cas")
             case = storefacts.set_case(p)
             k = "set[%s]:nonzero" % case
-            if is_counter_token(cas):
+            if is_counter_token(cas, ctx):
                 rep.ok(k, "token from the counter (starts non-zero, 2^64 steps to wrap)", loc_s(w["event"].span))
                 continue
             # client-derived
